@@ -115,7 +115,21 @@ def handle : List String → Option String
   | ["c16report"] => some (Spec.showProblems (Spec.reportProblems Spec.freshReport))
   | ["c16drift"] => some (Spec.showDrift (Spec.reportDrift Spec.committedReport Spec.freshReport))
   | ["c16knowndrift"] => some (Spec.showDrift Spec.knownDrift)
-  | ["c16same", a, b] => some (boolStr (Spec.unchangedOnCpu (a.splitOn "|") (b.splitOn "|")))
+  | "c16same" :: a :: b :: als =>
+    -- alias token: srcName;outName;sameSignature;code.sameShape.sameTypeQuant,…
+    let parseLink (t : String) : Option Spec.Link :=
+      match t.splitOn "." with
+      | [c, s, q] => (parseNat? c).map fun c => ⟨c, s == "1", q == "1"⟩
+      | _ => none
+    let parseAlias (t : String) : Option Spec.Alias :=
+      match t.splitOn ";" with
+      | [x, y, sg, ch] => do
+        let links ← if ch == "-" then some [] else (ch.splitOn ",").mapM parseLink
+        some ⟨x, y, sg == "1", links⟩
+      | _ => none
+    match als.mapM parseAlias with
+    | some l => some (boolStr (Spec.unchangedOnCpu (a.splitOn "|") (b.splitOn "|") l))
+    | none => some "err:parse"
   | "c16judge" :: pred :: obs :: _ => some (boolStr (Spec.placementOk pred obs))
   | _ => none
 
